@@ -143,7 +143,60 @@ def run(ctx):
             ctx.violation(msg, "find_best_split", inp, expected=det, actual=[str(x) for x in r], key=key + ":" + kind, how=how)
     # whole fits: recorded gains telescope to J(final) - J(root), and the loop stops only for a stated reason
     fits(ctx, 25 if ctx.tier == "quick" else 200)
+    hybrid_fits(ctx, 80 if ctx.tier == "quick" else 600)
     return ctx.finish()
+
+
+def hybrid_fits(ctx, nfits):
+    """the property quantifies over ALL intermediate tree states, not only those the greedy search reaches from the root:
+    the first answers of find_best_split are scripted admissible splits of every kind (harness.kauri_lib.run_hybrid_fit), then
+    the real search takes over and every one of its answers is judged by the brute-force oracle; its recorded gains must
+    telescope to J(final) - J(state at the take-over)"""
+    from . import c09
+    rs = np.random.RandomState(ctx.seed * 131 + 17)
+    how = "harness.kauri_lib.run_hybrid_fit(X, kernel, params, rs, prefix_len) ; harness.kauri_lib.check_split_oracle on every real step"
+    for t in range(nfits):
+        X, kern, params = c09.gen_hybrid_case(rs)
+        plen = int(rs.randint(1, 6))
+        inp = {"X": X.tolist(), "kernel": kern.tolist(), "params": params}
+        try:
+            h = kl.run_hybrid_fit(X, kern, params, rs, plen)
+        except Exception as e:
+            ctx.violation(f"Kauri.fit raised {type(e).__name__}: {e} (after scripted admissible splits)", "fit:hybrid", inp,
+                          key="fit:hybrid:raise", how=how)
+            continue
+        inp["scripted_prefix"] = [[str(x) for x in b] for b in h["prefix"]]
+        real = [(st, tup, errs) for st, tup, scripted, errs in h["calls"] if not scripted]
+        ctx.case(("hybrid", X.tobytes(), kern.tobytes(), repr(sorted(params.items(), key=str)), repr(h["prefix"])),
+                 any(tup[0] > 0 for _, tup, _ in real), None)
+        ctx.compared("fit:hybrid")
+        bad_state = False
+        for st, tup, scripted, errs in h["calls"]:
+            for e in errs:
+                bad_state = True
+                ctx.violation(f"find_best_split is called on an inconsistent tree state: {e}", "fit:hybrid", inp,
+                              key="fit:bookkeeping", how=how)
+        for st, tup, errs in real:
+            ctx.count("hybrid-real-step-states")
+            if tup[0] > 0:
+                ctx.count("hybrid-chosen:" + kl.split_kind(st, tup[2], tup[3], tup[1]))
+            if errs:
+                continue
+            ok, msg, det = kl.check_split_oracle(st, tup)
+            if not ok:
+                key = "fbs:gain-not-real" if "really" in msg else ("fbs:not-maximal" if "alternative" in msg else "fbs:inadmissible")
+                ctx.violation(msg + " (state reached during Kauri.fit after a scripted prefix)", "find_best_split",
+                              {**kl.state_json(st), "fit": inp}, expected=det, key=key + ":hybrid", how=how)
+        if real and not bad_state:
+            base = kl.J(kern, kl.labels_of(real[0][0]))
+            final = kl.J(kern, h["model"].labels_.tolist())
+            tot = sum(tup[0] for _, tup, _ in real if tup[0] > 0)
+            if tot != final - base:
+                ctx.violation(f"sum of the gains recorded after the take-over {float(tot)} != J(final)-J(take-over state) = {float(final - base)}",
+                              "fit:hybrid", inp, key="fit:telescope:hybrid", how=how)
+            if Fraction(h["score"]) != final:
+                ctx.violation(f"score {float(Fraction(h['score']))} != objective of labels_ {float(final)}", "fit:hybrid", inp,
+                              key="fit:score:hybrid", how=how)
 
 
 def fits(ctx, nfits):
